@@ -30,7 +30,9 @@ def cases(seed, tier):
     out = [{"gen": "anchor_sphere_adjacent_pair", "seed": 1}, {"gen": "anchor_sphere_adjacent_pair", "seed": 2},
            {"gen": "hinge", "seed": 973431509, "singu": "border", "features": True, "max_size": 5},
            {"gen": "hinge", "seed": 11, "singu": "one", "features": True, "max_size": 5},
-           {"gen": "hinge", "seed": 12, "singu": "face", "features": True, "max_size": 5}]
+           {"gen": "hinge", "seed": 12, "singu": "face", "features": True, "max_size": 5},
+           # grid collapsed to a point, two adjacent singular vertices (K-C16-3)
+           {"gen": "folded", "seed": 1283759013, "singu": "adjacent", "features": False, "shape": "collapsed_to_a_point", "max_size": 5}]
     for i in range(n):
         out.append({"gen": "hinge" if i % 6 == 5 else "zoo", "seed": rng.randrange(2 ** 31), "singu": ["empty", "one", "adjacent", "far", "many", "border", "face", "many"][i % 8],
                     "features": (i % 6 == 5) or (i % 7 == 3), "max_size": 5 if tier == "quick" else 9})
@@ -273,6 +275,8 @@ def run_case(desc, ctx):
     except Exception:
         cadj = None
     ctx.check(cadj == adj, "cutgraph", "cut_adj", "cut_adj_differs_from_cut_edges", "cut_adj is not the adjacency of the reported cut edges")
+    Vz = np.asarray(V, float)
+    all_edges_zero = all(np.array_equal(Vz[a_], Vz[b_]) for (a_, b_) in ref.edges)
     # 3. disk topology (or unchanged sphere)
     ctx.obs("disk", "topology")
     ao = topo.analyse(len(Vo), Fo)
@@ -288,6 +292,10 @@ def run_case(desc, ctx):
             mech = "closed_sphere_single_cut_edge_cannot_open"
         elif use_features and singus and ao["n_components"] > 1 and a["n_components"] == 1:
             mech = "feature_spanning_tree_disconnects_faces"
+        elif all_edges_zero and not use_features and ao["n_components"] > 1:
+            # K-C16-3: edges of length exactly 0 make every path length tie; the spanning tree over the singular vertices may then take a
+            # zero-length path between two border vertices, which closes a loop with the border and separates faces
+            mech = "all_edge_lengths_zero_tie_and_the_cut_separates_faces"
         elif not ao["manifold"]:
             mech = "cut_mesh_not_manifold"
         else:
